@@ -210,7 +210,8 @@ func (r *runner) worker(w int) {
 				continue
 			}
 			// died between operations (start-up failure): harness problem
-			h.Die("child %s died outside an operation (case %d): %s", r.sub, curIdx, lastLines(stderr.String(), 30))
+			h.Die("child %s died outside an operation (case %d, last op %d %s, finished=%v): %s\n...\n%s", r.sub, curIdx, curOp, curName, finished,
+				firstLines(stderr.String(), 12), lastLines(stderr.String(), 12))
 		}
 		dump := stderr.String()
 		d := deadOp{Idx: curIdx, OpIndex: curOp, Op: curName, Ms: time.Since(curStart).Milliseconds()}
@@ -392,16 +393,17 @@ func newWatchdog() *watchdog {
 	go func() {
 		for {
 			time.Sleep(50 * time.Millisecond)
+			// the comparison happens under the lock: arm/disarm cannot interleave, so a deadline of an operation that
+			// has already returned is never used (the watchdog may be descheduled for long on a loaded machine)
 			w.mu.Lock()
-			dl := w.deadline
-			w.mu.Unlock()
-			if dl != 0 && processCPU() > dl {
+			if w.deadline != 0 && processCPU() > w.deadline {
 				buf := make([]byte, 1<<20)
 				n := runtime.Stack(buf, true)
 				os.Stderr.WriteString("VERIF-CPU-BUDGET-EXCEEDED\n")
 				os.Stderr.Write(buf[:n])
 				os.Exit(3)
 			}
+			w.mu.Unlock()
 		}
 	}()
 	return w
